@@ -336,6 +336,10 @@ func (fv *funcVerifier) derefLval(st *State, ref smt.Term, t types.Type) lval {
 					for i := range si.fields {
 						args = append(args, fv.fieldLval(st, ref, t, &si.fields[i]).load())
 					}
+					if hasBoundVar(ref) {
+						// spec read at a quantified reference: no definition may capture the bound variable
+						return smt.App(si.sort, si.ctor, args...)
+					}
 					return fv.c.Let("ld_"+si.sort, smt.App(si.sort, si.ctor, args...))
 				},
 				store: func(v smt.Term) {
@@ -458,7 +462,16 @@ func (fv *funcVerifier) selectLval(st *State, x *ast.SelectorExpr) (lval, bool) 
 	idxs := sel.Index()
 	for n, i := range idxs {
 		if _, opaque := opaqueNamed(cur.typ); opaque {
-			fv.unsupported("field of opaque type %s", cur.typ)
+			// exported field of a library type modelled as opaque (e.g. http.Request.Method):
+			// every read yields an arbitrary type-valid value, writes are not tracked
+			if n != len(idxs)-1 {
+				fv.unsupported("embedded field path through opaque type %s", cur.typ)
+			}
+			ft := fv.typeOf(x)
+			fv.note("field %s of opaque library type %s: reads are unconstrained", x.Sel.Name, cur.typ)
+			return lval{typ: ft,
+				load:  func() smt.Term { return fv.fresh(st, "opq_"+x.Sel.Name, ft) },
+				store: func(smt.Term) {}}, true
 		}
 		stt, ok := cur.typ.Underlying().(*types.Struct)
 		if !ok {
